@@ -49,11 +49,12 @@ class State:
         self.yielded = None       # SV of List type for generators
         self.loop_snap = {}       # ordinal -> snapshot for loop ghost access
         self.ret_ty = None
+        self.exc_sink = None      # list collecting exceptional continuations raised while evaluating the current statement
         self.ctx = None           # (module, 'module:Class' or None) of the code being executed
     def fork(self):
         s = State()
         s.env = dict(self.env); s.heap = dict(self.heap); s.alloc = self.alloc; s.pc = list(self.pc)
-        s.old = self.old; s.yielded = self.yielded; s.loop_snap = dict(self.loop_snap); s.ret_ty = self.ret_ty; s.ctx = self.ctx
+        s.old = self.old; s.yielded = self.yielded; s.loop_snap = dict(self.loop_snap); s.ret_ty = self.ret_ty; s.ctx = self.ctx; s.exc_sink = self.exc_sink
         return s
     def assume(self, f):
         if z3.is_true(f): return
